@@ -700,6 +700,16 @@ def eval_e2e(desc, ctx):
     # instance variables for a lon/lat release: both set-ups must work
     if with_state:
         conf["state"] = {"instance_variables": {"lon": "float", "lat": "float"}, "default_values": {"lon": 0.0, "lat": 0.0}}
+    # some particles settle (are deactivated by the IBM after the move of that step): from then on they keep the
+    # position reached — and the lon/lat written is still that of the position in the same record
+    settle = {}
+    for pid in range(len(rows)):
+        if rng.random() < 0.5:
+            settle.setdefault(rng.randint(0, nsteps - 2), []).append(pid)
+    if settle:
+        import pathlib
+
+        conf["ibm"] = {"module": str(pathlib.Path(__file__).resolve().parents[1] / "plugins" / "kill_ibm.py"), "settle": settle}
     what = f"lon/lat release ({len(rows)} rows in subgrid {(i0, i1, j0, j1)}), lon/lat output, layout={layout}, numrec={numrec}, state carries lon/lat: {with_state}"
     try:
         run_ladim.run_main(conf, d)
